@@ -634,7 +634,8 @@ func (t *State) verifyTxRWSets(tx *pb.Transaction) (bool, error) {
 			return false, ctxErr
 		}
 		// 判断合约调用的返回码
-		if ctxResponse.Status >= 400 && i < len(reservedRequests) {
+		// a call that ends with an error status has failed, whoever requested it: its partial effects must not be committed
+		if ctxResponse.Status >= contract.StatusErrorThreshold {
 			ctx.Release()
 			t.log.Error("verifyTxRWSets Invoke error", "status", ctxResponse.Status, "contractName", tmpReq.GetContractName())
 			return false, errors.New(ctxResponse.Message)
